@@ -2,7 +2,7 @@
    Part 1: generic lemmas over ANY api list / caller names / flags.
    Part 2: the finite obligations over Generated/GenApis.v (vm_compute + forallb_forall)
            and the instantiated theorems that Properties/C18.v states. *)
-From AQ Require Import Lib.Bytes Rpc.Registry Generated.GenApis Rpc.RpcModel.
+From AQ Require Import Lib.Bytes Rpc.Registry Rpc.Dispatch Generated.GenApis Rpc.RpcModel.
 From Coq Require Strings.String.
 Import String.StringSyntax.
 Import ListNotations.
@@ -351,11 +351,12 @@ Qed.
 (* the unprotected signers reach no keystore entry point other than SignHashAllowed (the one handed
    to the clique engine as block sealer by StartMining); everything else that signs has a protected name *)
 Definition n_SignHashAllowed := Eval vm_compute in bs "SignHashAllowed".
-Definition targets_check (x : bytes * bytes * bytes * list bytes) : bool :=
+Definition targets_check (x : bytes * bytes * bytes * list bytes * list bytes) : bool :=
   match x with
-  | (ns, wire, _, ts) =>
+  | (ns, wire, _, ts, ts_without_seal) =>
     if mem_pair (ns, wire) unprotected_signers
     then match ts with [t] => bytes_eqb t n_SignHashAllowed | _ => false end
+         && is_nil ts_without_seal      (* every call path to a keystore entry point passes through clique.Clique.Seal *)
     else true
   end.
 Lemma gen_exceptions_only_seal : forallb targets_check gen_sign_targets = true.
@@ -444,6 +445,41 @@ Proof.
   intros H Ha Hsel Hm Hst.
   apply (exposed_complete gen_callers gen_meta_api f t c apis r a m H Ha Hsel Hm).
   unfold stays. rewrite gen_callers_allowed. exact Hst.
+Qed.
+
+(* ---------- dispatch: what a request (single or inside a batch) can invoke ---------- *)
+
+Lemma lookup_in r ns w sub e : lookup r ns w sub = Some e -> In e (r_entries r).
+Proof. unfold lookup. intro H. apply find_some in H. tauto. Qed.
+
+(* whatever the method string, the first parameter and the batch flag are: only registered entries *)
+Theorem resolve_only_registered r batch meth fp e :
+  resolve r batch meth fp = RCallback e \/ resolve r batch meth fp = RSubscription e ->
+  In e (r_entries r).
+Proof.
+  unfold resolve. destruct (parse batch meth fp) as [| | |svc m pubsub]; try (intros [H|H]; discriminate).
+  destruct (negb (mem_bytes svc (r_services r))); [intros [H|H]; discriminate|].
+  destruct pubsub.
+  - destruct (lookup r svc m true) as [e0|] eqn:L; intros [H|H]; try discriminate.
+    inversion H. subst. exact (lookup_in _ _ _ _ _ L).
+  - destruct (lookup r svc m false) as [e0|] eqn:L; intros [H|H]; try discriminate.
+    inversion H. subst. exact (lookup_in _ _ _ _ _ L).
+Qed.
+
+(* request-level form of the main theorem: on a transport whose flag is off no request — plain,
+   eth_-aliased, prefix-less, subscribe, or element of a batch — resolves to a method that can
+   reach a keystore signing entry point, the three sealing methods excepted *)
+Theorem no_optin_request_cannot_sign apis f t c r batch meth fp e :
+  In apis gen_api_sets ->
+  flag_of f t = false ->
+  gen_exposed f t c apis = Some r ->
+  resolve r batch meth fp = RCallback e \/ resolve r batch meth fp = RSubscription e ->
+  e_signs e = false \/
+  In (e_ns e, e_wire e) [ (bs "miner", bs "start"); (bs "aqua", bs "getWork"); (bs "testing", bs "getBlockTemplate") ].
+Proof.
+  intros Hin Hf H Hres. pose proof (resolve_only_registered _ _ _ _ _ Hres) as He.
+  destruct (e_signs e) eqn:Hs; [right | left; reflexivity].
+  exact (no_optin_signers_listed apis f t c r e Hin Hf H He Hs).
 Qed.
 
 (* ---------- refutations: concrete served signing methods in the default environment ---------- *)
@@ -538,3 +574,23 @@ Proof. vm_compute. repeat split; reflexivity. Qed.
 Example global_flag_is_dead t c apis :
   gen_exposed (mkFlags true false false false false) t c apis = gen_exposed all_off t c apis.
 Proof. apply optin_is_per_transport. destruct t; reflexivity. Qed.
+
+Definition only_ipc_flags : flags := mkFlags false true false false false.
+
+(* the eth_ alias exists for single requests only, and leads to the aqua namespace's registry slot *)
+Definition n_eth_sign := Eval vm_compute in bs "eth_sign".
+Definition n_eth_getWork := Eval vm_compute in bs "eth_getWork".
+Definition is_callback_named (x : resolution) (name : bytes) : bool :=
+  match x with RCallback e => bytes_eqb (wire_name e) name | _ => false end.
+Definition resolve_on (apis : list api) (f : flags) (t : transport) (c : config) (batch : bool) (meth : bytes) : resolution :=
+  match gen_exposed f t c apis with Some r => resolve r batch meth None | None => RInvalid end.
+
+Example eth_alias_single_only :
+  is_callback_named (resolve_on gen_apis all_off HTTP gen_default_config false n_eth_getWork) n_aqua_getWork = true /\
+  resolve_on gen_apis all_off HTTP gen_default_config true n_eth_getWork = RNotFound /\
+  resolve_on gen_apis all_off IPC gen_default_config false n_eth_sign = RNotFound /\
+  is_callback_named (resolve_on gen_apis only_ipc_flags IPC gen_default_config false n_eth_sign) n_aqua_sign = true /\
+  resolve_on gen_apis only_ipc_flags IPC gen_default_config true n_eth_sign = RNotFound /\
+  resolve_on gen_apis only_ipc_flags HTTP gen_default_config false n_eth_sign = RNotFound.
+Proof. vm_compute. repeat split; reflexivity. Qed.
+
